@@ -45,6 +45,9 @@ FOREIGN = [
     f"RQ --- 18:999999 {CTL} --:------ 2309 001 00",            # same header as our request, foreign sender
     f" I --- 04:111111 --:------ 04:111111 30C9 003 0107D0",    # header cannot be computed (idx 01, no controller)
     f" I --- 04:111111 --:------ {CTL} 30C9 003 0007D0",
+    # a null fault-log entry (what a controller answers for any index beyond its log) from ANOTHER controller
+    f"RP --- {OTH} {GWY} --:------ 0418 022 000000B0000000000000000000007FFFFF7000000000",
+    f"RP --- {OTH} 18:999999 --:------ 0418 022 000000B0000000000000000000007FFFFF7000000000",
 ]
 
 
@@ -158,7 +161,9 @@ def gen_episode(rnd: random.Random, fine: bool = True) -> Episode:
     if fine:
         for _ in range(rnd.choice((0, 0, 1, 2, 3))):
             kind = rnd.choice(("foreign", "foreign", "conn_lost", "conn_lost_made", "pause", "pause_resume"))
-            tt = rnd.choice((rnd.uniform(0, 8), rnd.choice(deadlines) + rnd.choice((0, -1e-9, 1e-9)), rnd.choice([c["t"] for c in e.calls]) + rnd.choice((0.0, 1e-9, 0.02))))
+            c0 = rnd.choice(e.calls)
+            tt = rnd.choice((rnd.uniform(0, 8), rnd.choice(deadlines) + rnd.choice((0, -1e-9, 1e-9)), rnd.choice([c["t"] for c in e.calls]) + rnd.choice((0.0, 1e-9, 0.02)),
+                             c0["t"] + min(c0["timeout"], 20.0) + rnd.choice((0, 0, -1e-9, 1e-9))))      # ... and a caller's own deadline
             e.events.append((tt, kind, rnd.randrange(len(FOREIGN))))
         e.coarse_clock = rnd.random() < 0.25
     return e
